@@ -11,6 +11,7 @@ vars == <<lines, st>>
 T(tag, num, txt) == [k |-> "T", tag |-> tag, num |-> num, txt |-> txt]
 Alphabet == { T("20", "20", "X"), T("50K", "50", "X"), T("20C", "20", "X"), T("71A", "71", "X"), T("21", "21", ""),
               T("79", "79", "X-"),                                   \* content ending with a dash
+              T("50L#1", "50", "X"),                                 \* numbered tag that also carries an option letter
               [k |-> "C", txt |-> "enddash"],
               [k |-> "C", txt |-> "plain"], [k |-> "C", txt |-> "colon"], [k |-> "C", txt |-> "marker"],
               [k |-> "C", txt |-> "dashy"],
